@@ -57,6 +57,28 @@ def runNHist (t : NTable) (ops : List Op) : List String :=
       out :: go r.1 rest
   go State.init ops
 
+def parseXOp (s : String) : Option XOp :=
+  if s.startsWith "x" then
+    match (s.drop 1).toString.splitOn "." with
+    | [a, b] => do some (XOp.raises (← a.toNat?) (← b.toNat?) [0])
+    | _ => none
+  else (parseOp s).map XOp.op
+
+/-- as `runNHist`, with raising calls `x<m>.<a>` (output `-`) -/
+def runXHist (t : NTable) (ops : List XOp) : List String :=
+  let rec go (s : State) : List XOp → List String
+    | [] => []
+    | op :: rest =>
+      let r := xstep t s op
+      let out := match op, r.2 with
+        | .op (.query mi a), some (v, c) =>
+          let log := (nquery t (mi + 1) s mi a).log
+          join (log.map fun (m, a, h) => s!"{m}.{a}.{if h then "H" else "M"}") "+" ++
+            (if v == c then "=1" else "=0")
+        | _, _ => "-"
+      out :: go r.1 rest
+  go State.init ops
+
 def mtableOf (name : String) : Option Mode.MTable :=
   (StructC01.allMTables.find? (·.1 == name)).map (·.2)
 
@@ -110,6 +132,9 @@ def answer (toks : List String) : String :=
       | _, _, _ => "bad-request"
   | ["maxsize", c] => match ntableOf c with
       | some t => match t.maxsize with | some k => toString k | none => "none"
+      | none => "no-such-class"
+  | ["xhist", c, ops] => match ntableOf c with
+      | some t => join (runXHist t ((splitTok ops ",").filterMap parseXOp)) ","
       | none => "no-such-class"
   | ["nhist", c, ops] => match ntableOf c with
       | some t => join (runNHist t ((splitTok ops ",").filterMap parseOp)) ","
